@@ -1530,7 +1530,7 @@ fn lms_parse(inp: &[u8]) -> Option<(usize, u32, &[u8], &[u8])> {
     Some(((inp[0] % 4) as usize, u32::from_le_bytes([inp[1], inp[2], inp[3], inp[4]]), &inp[5..13], &inp[13..]))
 }
 
-macro_rules! lms_set { ($modname:ident, $set:ident, $seed:expr) => {
+macro_rules! lms_set { ($modname:ident, $set:ident, $seed:expr, $n:expr, $hash:expr) => {
     mod $modname {
         use super::*;
         use crrl::lms::$set::{PrivateKey, PublicKey};
@@ -1590,6 +1590,69 @@ macro_rules! lms_set { ($modname:ident, $set:ident, $seed:expr) => {
             match last { Some((sig, m)) => chk(pk2.verify(&sig, &m), || "public key changed during the key life".into()), None => Ok(()) }
         }
 
+        /// independent RFC 8554 verifier (Algorithms 4b and 6a, w = 8, ls = 0) built on the harness's own hash references
+        fn rfc_h(parts: &[&[u8]]) -> Vec<u8> { let mut m = Vec::new(); for p in parts { m.extend_from_slice(p); } let f: fn(&[u8]) -> Vec<u8> = $hash; f(&m) }
+        fn rfc_q(i_: &[u8], q: u32, c: &[u8], msg: &[u8]) -> Vec<u8> { rfc_h(&[i_, &q.to_be_bytes(), &[0x81, 0x81], c, msg]) }
+        fn rfc_verify(i_: &[u8], t1: &[u8], sig: &[u8], msg: &[u8]) -> bool {
+            let n: usize = $n;
+            let p = if n == 32 { 34 } else { 26 };
+            let h = PrivateKey::VERIF_H as usize;
+            if sig.len() != 4 + (4 + n + p * n) + 4 + h * n { return false; }
+            let q = u32::from_be_bytes([sig[0], sig[1], sig[2], sig[3]]);
+            if q >= LEAVES { return false; }
+            let ots = &sig[4..4 + 4 + n + p * n];
+            let c = &ots[4..4 + n];
+            let qd = rfc_q(i_, q, c, msg);
+            let mut ck: u32 = 0; for b in &qd { ck += 255 - *b as u32; }
+            let mut qck = qd.clone(); qck.extend_from_slice(&(ck as u16).to_be_bytes());
+            let mut zs: Vec<u8> = Vec::new();
+            for i in 0..p {
+                let a = qck[i] as usize;
+                let mut tmp = ots[4 + n + i * n..4 + n + (i + 1) * n].to_vec();
+                for j in a..255 { tmp = rfc_h(&[i_, &q.to_be_bytes(), &(i as u16).to_be_bytes(), &[j as u8], &tmp]); }
+                zs.extend_from_slice(&tmp);
+            }
+            let kc = rfc_h(&[i_, &q.to_be_bytes(), &[0x80, 0x80], &zs]);
+            let mut node = LEAVES + q;
+            let mut tmp = rfc_h(&[i_, &node.to_be_bytes(), &[0x82, 0x82], &kc]);
+            let path = &sig[4 + 4 + n + p * n + 4..];
+            for i in 0..h {
+                let sib = &path[i * n..(i + 1) * n];
+                let par = node / 2;
+                tmp = if node & 1 == 1 { rfc_h(&[i_, &par.to_be_bytes(), &[0x83, 0x83], sib, &tmp]) } else { rfc_h(&[i_, &par.to_be_bytes(), &[0x83, 0x83], &tmp, sib]) };
+                node = par;
+            }
+            tmp[..] == t1[..]
+        }
+        /// signatures made by the library are accepted by the independent RFC 8554 verifier - also for message digests Q with
+        /// leading zero bytes (searched with the reference hash: the randomizer C is the next output of the deterministic RNG)
+        pub fn rfcref(start: u32, ctl: &[u8], msg: &[u8]) -> Result<(), String> {
+            let n: usize = $n;
+            let leaf = start % LEAVES;
+            let mut sk = key_at(leaf);
+            let i_ = sk.verif_I();
+            let t1 = sk.verif_T()[1];
+            let seed = u64::from_le_bytes(ctl.try_into().unwrap()) ^ 0x5EED;
+            let mut c = vec![0u8; n];
+            { use crrl::RngCore; DetRng(seed).fill_bytes(&mut c); }
+            let mut m = msg.to_vec();
+            if ctl[0] % 2 == 0 {
+                // look for a suffix that makes the first digit(s) of Q zero
+                let want = 1 + (ctl[1] % 2) as usize * 0;
+                for t in 0..3000u32 {
+                    let mut cand = msg.to_vec(); cand.extend_from_slice(&t.to_le_bytes());
+                    let qd = rfc_q(&i_, leaf, &c, &cand);
+                    if qd[..want].iter().all(|&b| b == 0) { m = cand; break; }
+                }
+            }
+            let mut rng = DetRng(seed);
+            let sig = sk.sign(&mut rng, &m).ok_or_else(|| format!("sign returned None at leaf {}", leaf))?;
+            chk(sig[8..8 + n] == c[..], || "randomizer C is not the next RNG output (harness assumption)".into())?;
+            let qd = rfc_q(&i_, leaf, &c, &m);
+            chk(rfc_verify(&i_, &t1, &sig, &m), || format!("signature made by the library is rejected by the RFC 8554 reference verifier (leaf {}, Q = {}, msg {})", leaf, hex(&qd), hex(&m)))?;
+            chk(sk.compute_public().verify(&sig, &m), || format!("own signature rejected (leaf {})", leaf))
+        }
+
         /// one signature at leaf `start % 2^h`, then one corruption
         pub fn corrupt(start: u32, ctl: &[u8], msg: &[u8]) -> Result<(), String> {
             let leaf = start % LEAVES;
@@ -1625,10 +1688,10 @@ macro_rules! lms_set { ($modname:ident, $set:ident, $seed:expr) => {
         }
     }
 } }
-lms_set!(lms0, LMS_SHA256_M32_H5_SHA256_N32_W8, 0x4C4D5330);
-lms_set!(lms1, LMS_SHA256_M24_H5_SHA256_N24_W8, 0x4C4D5331);
-lms_set!(lms2, LMS_SHAKE_M24_H5_SHAKE_N24_W8, 0x4C4D5332);
-lms_set!(lms3, LMS_SHAKE_M32_H5_SHAKE_N32_W8, 0x4C4D5333);
+lms_set!(lms0, LMS_SHA256_M32_H5_SHA256_N32_W8, 0x4C4D5330, 32, |m: &[u8]| crate::cases_hash::ref_sha256(m));
+lms_set!(lms1, LMS_SHA256_M24_H5_SHA256_N24_W8, 0x4C4D5331, 24, |m: &[u8]| crate::cases_hash::ref_sha256(m)[..24].to_vec());
+lms_set!(lms2, LMS_SHAKE_M24_H5_SHAKE_N24_W8, 0x4C4D5332, 24, |m: &[u8]| crate::cases_hash::ref_keccak(136, 0x1F, m, 24));
+lms_set!(lms3, LMS_SHAKE_M32_H5_SHAKE_N32_W8, 0x4C4D5333, 32, |m: &[u8]| crate::cases_hash::ref_keccak(136, 0x1F, m, 32));
 
 fn sp_lms_life() -> Vec<Vec<u8>> {
     let mut v = Vec::new();
@@ -1691,6 +1754,13 @@ fn reg_lms(v: &mut Vec<Case>) {
         run: Box::new(|inp: &[u8]| {
             let (set, start, ctl, msg) = match lms_parse(inp) { Some(x) => x, None => return Ok(()) };
             match set { 0 => lms0::life(start, ctl, msg), 1 => lms1::life(start, ctl, msg), 2 => lms2::life(start, ctl, msg), _ => lms3::life(start, ctl, msg) }
+        }) });
+    v.push(Case { id: "lms_rfc_ref".into(),
+        describe: "a signature made by the library (any leaf) is accepted by an independent RFC 8554 verifier (Algorithms 4b / 6a over the harness's own SHA-256 / SHAKE256), including messages whose digest Q starts with a zero digit (found by search: the randomizer comes from the deterministic RNG). Input: set(1) | leaf (4, LE) | ctl(8) | msg",
+        ops: vec![Op::Custom { len: None, specials: sp_lms_corrupt, random: rnd_lms_corrupt }],
+        run: Box::new(|inp: &[u8]| {
+            let (set, start, ctl, msg) = match lms_parse(inp) { Some(x) => x, None => return Ok(()) };
+            match set { 0 => lms0::rfcref(start, ctl, msg), 1 => lms1::rfcref(start, ctl, msg), 2 => lms2::rfcref(start, ctl, msg), _ => lms3::rfcref(start, ctl, msg) }
         }) });
     v.push(Case { id: "lms_sig_corrupt".into(),
         describe: "a produced signature verifies; different message, any single flipped bit, truncation, trailing bytes, other / out-of-range leaf index are rejected. Input: set%4 | leaf (u32 LE, mod 2^h) | ctl(8: kind%7, par32, par8, ..) | msg",
